@@ -200,6 +200,56 @@ fn one_assignment(assign: [usize; 4], cycles: usize) -> (u64, u64, Vec<Viol>, BT
     (evals, fix, viols, outcomes)
 }
 
+/// The layer directory spelled in ways other than a plain UTF-8 absolute path: the implicit
+/// entries must hold `<layer path as handed over>/<subdir>` byte for byte.
+const PATH_FORMS: [&str; 7] = ["non-UTF-8 component", "trailing slash", "dot and dot-dot segments", "through a symlinked parent", "space, colon and '=' in a component", "backslash-question-mark component", "U+FFFD and other non-ASCII in a component"];
+
+fn path_forms(assign: [usize; 4]) -> (u64, Vec<Viol>) {
+    use std::os::unix::ffi::OsStrExt;
+    let mut viols = Vec::new();
+    let mut evals = 0;
+    for (fi, form) in PATH_FORMS.iter().enumerate() {
+        let sc = Scratch::new("c10p");
+        let base = sc.path.join("layers");
+        std::fs::create_dir_all(&base).unwrap();
+        let layer: std::path::PathBuf = match fi {
+            0 => base.join(std::ffi::OsStr::from_bytes(b"p\xff\xfeq")).join("a"),
+            1 => std::path::PathBuf::from(format!("{}/a/", base.display())),
+            2 => {
+                std::fs::create_dir_all(base.join("x")).unwrap();
+                std::path::PathBuf::from(format!("{}/./x/../a", base.display()))
+            }
+            3 => {
+                std::fs::create_dir_all(sc.path.join("real")).unwrap();
+                std::os::unix::fs::symlink(sc.path.join("real"), base.join("link")).unwrap();
+                base.join("link").join("a")
+            }
+            4 => base.join("a b:c=d").join("a"),
+            5 => base.join("\\\\?\\C:").join("a"),
+            _ => base.join("\u{fffd}\u{e9}\u{1f600}").join("a"),
+        };
+        make_layer(&layer, &sc.path.join("outside"), assign);
+        let read = match LayerEnv::read_from_layer_dir(&layer) {
+            Ok(r) => r,
+            Err(e) => {
+                viols.push(("path-form:read-failed".into(), format!("layer directory spelled with {form}: read failed: {e}"), json!({"assign": assign, "path_form": fi})));
+                continue;
+            }
+        };
+        for scope in [Sc::Build, Sc::Launch, Sc::Process("p".into())] {
+            for start in start_envs() {
+                evals += 1;
+                let got = plain_of(&read.apply(scope.real(), &real_plain(&start)));
+                let want = reference(&layer, assign, &AbsEnv::new(), &scope, &start);
+                if got != want {
+                    viols.push((format!("path-form:implicit-entry-wrong:{}", scope_name(&scope)), format!("layer directory spelled with {form}, {:?}, scope {scope:?}, start {}: got {} want {}", (0..4).map(|i| format!("{}={}", SUBDIRS[i], KINDS[assign[i]])).collect::<Vec<_>>(), fmt_plain(&start), fmt_plain(&got), fmt_plain(&want)), json!({"assign": assign, "path_form": fi})));
+                }
+            }
+        }
+    }
+    (evals, viols)
+}
+
 fn scope_name(s: &Sc) -> &'static str {
     match s {
         Sc::All => "all",
@@ -248,12 +298,26 @@ pub fn run(args: &Args) {
             rep.violation(&sig, what, r);
         }
     }
-    rep.cov("evaluations", evals + fix);
+    // layer directory spellings: every assignment over {absent, dir, link->dir} x 7 spellings
+    let mut pf = 0u64;
+    let pf_assigns: Vec<[usize; 4]> = assigns.iter().copied().filter(|x| x.iter().all(|k| [0, 1, 3].contains(k))).collect();
+    let pres: Vec<_> = pf_assigns.par_iter().map(|a| path_forms(*a)).collect();
+    for (e, v) in pres {
+        pf += e;
+        for (sig, what, r) in v {
+            if args.replay.is_some() {
+                println!("DIFFERENCE: {what}");
+            }
+            rep.violation(&sig, what, r);
+        }
+    }
+    rep.cov("path_form_evaluations", pf);
+    rep.cov("evaluations", evals + fix + pf);
     rep.cov("apply_evaluations", evals);
     rep.cov("fixpoint_cycles_run", fix);
     rep.cov("distinct_nontrivial", outcomes.len() as u64);
     rep.cov("distinct_outcomes", outcomes.len() as u64);
-    rep.cov("rule", "all 6^4 assignments of {absent, dir, file, symlink->dir, symlink->file, dangling symlink} to bin/lib/include/pkgconfig, plus two kinds that fail to resolve with ELOOP / ENOTDIR (quick: all 4^4 over {absent, dir, ELOOP, ENOTDIR}; thorough: all 8^4) x 10 explicit envs (two with a non-empty per-process directory, three whose value is exactly the layer's own bin/lib path) on the same variables x 3 start envs (unset, set, empty) x 4 query scopes, each read by the real read_from_layer_dir and compared with the reference; per assignment x explicit env, read->write cycles by 6 routes (LayerEnv, cached_layer keep+read_env/write_env, handle_layer Keep, handle_layer Update with the default impl, the last two also on a restored layer whose toml has no [types]) must leave the env directories unchanged. distinct_nontrivial = distinct (scope, resulting environment) outcomes with the scratch path normalised");
+    rep.cov("rule", "all 6^4 assignments of {absent, dir, file, symlink->dir, symlink->file, dangling symlink} to bin/lib/include/pkgconfig, plus two kinds that fail to resolve with ELOOP / ENOTDIR (quick: all 4^4 over {absent, dir, ELOOP, ENOTDIR}; thorough: all 8^4) x 10 explicit envs (two with a non-empty per-process directory, three whose value is exactly the layer's own bin/lib path) on the same variables x 3 start envs (unset, set, empty) x 4 query scopes, each read by the real read_from_layer_dir and compared with the reference; per assignment x explicit env, read->write cycles by 6 routes (LayerEnv, cached_layer keep+read_env/write_env, handle_layer Keep, handle_layer Update with the default impl, the last two also on a restored layer whose toml has no [types]) must leave the env directories unchanged; layer directory spellings: all 3^4 assignments over {absent, dir, link->dir} x 7 spellings of the layer path (non-UTF-8 component, trailing slash, ./.. segments, symlinked parent, space/colon/'=', a \\\\?\\ component, U+FFFD/non-ASCII) x 3 scopes x 3 start envs: the implicit value is the handed-over path joined with the sub-directory, byte for byte. distinct_nontrivial = distinct (scope, resulting environment) outcomes with the scratch path normalised");
     rep.cov("bound", json!({"assignments": assigns.len(), "explicit_envs": 10, "start_envs": 3, "scopes": 4, "cycles": cycles, "routes": 6}));
     rep.cov("exhaustive", true);
     rep.sample(json!({"assignment": {"bin": "link->dir", "lib": "file", "include": "dir", "pkgconfig": "dangling"}, "explicit": "PATH append+delim in build", "scope": "Build", "start": "all five variables set"}));
